@@ -65,7 +65,7 @@ type c16Outer struct {
 }
 
 var c16Time = time.Date(2021, 3, 4, 5, 6, 7, 0, time.UTC)
-var c16Slice = []interface{}{"e0", 2.0}
+var c16Slice = []interface{}{"e0", 2.0, 7, int64(8)}
 var c16Func = func(x interface{}) (interface{}, error) { return x, nil }
 
 func c16Universe(depth int) map[string]interface{} {
@@ -342,6 +342,10 @@ func judgePath(c PathCase) *eng.Fail {
 	o := safeResolve(r, bg, p.src.Expression)
 	if o.panicked {
 		return eng.F("C16/panic", "%s: panic: %s", src, o.panicMsg)
+	}
+	// slices are handed on unchanged: the caller's list still holds the Go values it held
+	if len(c16Slice) != 4 || c16Slice[0] != interface{}("e0") || c16Slice[1] != interface{}(2.0) || c16Slice[2] != interface{}(7) || c16Slice[3] != interface{}(int64(8)) {
+		return eng.F("C16/caller-slice-rewritten", "after evaluating %s the caller's list []interface{}{\"e0\", 2.0, 7, int64(8)} holds %#v", src, c16Slice)
 	}
 	shape := make([]string, len(c.Path))
 	for i, s := range c.Path {
